@@ -488,13 +488,13 @@ def write_replay(prop, tr, batch_seed, tier):
 
 
 def _lines_by_file(lines):
-    """distinct executed lines of tlexport/*.py in the sampled (1 in 40) traced runs of this batch"""
+    """distinct executed lines of tlexport/*.py in the sampled (every 25th scenario) traced runs of this batch"""
     by = {}
     for l in lines:
         fn = l.rsplit(":", 1)[0]
         by[fn] = by.get(fn, 0) + 1
     by["_total"] = sum(by.values())
-    by["_note"] = "sys.settrace line events in a 1-in-40 sample of scenarios (first export of the scenario)"
+    by["_note"] = "sys.settrace line events in a 1-in-25 sample of scenarios (every 25th index) (first export of the scenario)"
     return by
 
 
